@@ -368,6 +368,27 @@ def bounded_sequences(tier, seed):
         seen.add(('join', len(strs)))
         check('string-join($s, ",")', ','.join(strs), s=strs)
         check('string-join($s, "")', ''.join(strs), s=strs)
+    # multi-variable clauses: lexicographic product, outer variable slowest
+    for k in (2, 3):
+        vs = ['$x', '$y', '$z'][:k]
+        clause = ', '.join(f'{v} in (1, 2)' for v in vs)
+        seen.add(('product', k))
+        check(f'for {clause} return ({", ".join(vs)})', [c for t in itertools.product((1, 2), repeat=k) for c in t])
+        check(f'some {clause} satisfies {" + ".join(vs)} = {2 * k}', True)
+        check(f'some {clause} satisfies {" + ".join(vs)} = {2 * k + 1}', False)
+        check(f'every {clause} satisfies {" + ".join(vs)} lt {2 * k}', False)
+        check(f'every {clause} satisfies {" + ".join(vs)} le {2 * k}', True)
+        check(f'count(for {clause} return 1)', 2 ** k)
+    # string / anyURI mixes are promoted to xs:string
+    check('min(("a", "c", xs:anyURI("b")))', 'a')
+    check('max(("a", "c", xs:anyURI("b")))', 'c')
+    check('min((xs:anyURI("b"), "a", "c")) instance of xs:string', True)
+    check('max(("a", xs:anyURI("b"), xs:anyURI("c"))) instance of xs:string', True)
+    # distinct-values: numeric equality across types
+    for expr, cnt in (('(1, 1.0)', 1), ('(1.0, 1)', 1), ('(1 to 5, 3.0, 4e0)', 5), ('(2e0, 2, 2.0)', 1), ('(xs:float(1), 1, 1e0)', 1),
+                      ('(1, 2, 1.5, 2.0)', 3), ('("a", "a", "b")', 2), ('(xs:double("NaN"), xs:double("NaN"), 1)', 2)):
+        seen.add(('distinct', expr))
+        check(f'count(distinct-values({expr}))', cnt)
     check('sum((1, 2, xs:double("NaN")))', float('nan'))
     check('max((1, xs:double("NaN"), 3))', float('nan'))
     check('distinct-values((xs:double("NaN"), xs:double("NaN"), 1))', [float('nan'), 1]) if False else None
@@ -388,3 +409,55 @@ NOT_DECIDED = [
     'predicates, for/some/every, simple map, range, aggregates, distinct-values, string-join: bounded stand-in only '
     '(their evaluators delegate to select_with_focus / iter_product, which are outside the subset brought under contract)',
 ]
+
+
+# ---- select_with_focus: the inner focus (position/size/item) and its restoration ----------------------
+from elementpath.xpath_tokens.base import XPathToken as _XPathToken      # noqa: E402
+from elementpath.xpath_tokens.axes import XPathAxis as _XPathAxis        # noqa: E402
+from elementpath import XPathContext as _XPathContext                    # noqa: E402
+
+
+def focus_case(reverse=None):
+    def setup(S, ex):
+        results = S.seq('S', K_ITEM)
+        item0, size0, pos0 = S.item('item0'), S.int('size0'), S.int('pos0')
+        ctx = VObj(_XPathContext, {'item': item0, 'size': size0, 'position': pos0, 'axis': VStr('entry-axis')}, name='context')
+        fields = {'symbol': VStr('x'), 'parser': mk_parser('2.0')}
+        if reverse is not None:
+            fields['reverse_axis'] = VBool(reverse)
+        tok = VObj(_XPathAxis if reverse is not None else _XPathToken, fields, name='self')
+
+        def at_yield(ex, v, env):
+            i = env.lookup('_i0') or env.lookup('_i1')
+            idx = i.t
+            n = results.len
+            want_pos = (n - idx) if reverse else (idx + 1)
+            ex.oblige('focus_at_each_yield',
+                      z3.And(ctx.fields['position'].t == want_pos, ctx.fields['size'].t == n,
+                             ctx.fields['item'].t == z3.Select(results.arr, idx), v.t == z3.Select(results.arr, idx),
+                             z3.BoolVal(isinstance(ctx.fields['axis'], VNone))), 'V',
+                      'position/size/item of the context at the i-th yield')
+        hooks = {'self.select': lambda ex, node, a, kw: results, 'yield': at_yield}
+        return Case([tok, ctx], hooks=hooks, names={'ctx': ctx, 'item0': item0})
+    return setup
+
+
+import z3  # noqa: E402,F811
+
+for name, target, rev, loop in (('XPathToken.select_with_focus', lambda: _XPathToken.select_with_focus, None, 0),
+                                ('XPathAxis.select_with_focus.forward', lambda: _XPathAxis.select_with_focus, False, 1),
+                                ('XPathAxis.select_with_focus.reverse', lambda: _XPathAxis.select_with_focus, True, 0)):
+    CONTRACTS.append(Contract(
+        name, 'C08', target, focus_case(rev),
+        pre=['len(S) < 2 ** 53'],
+        post=[
+            ('yields_the_selection_in_order', "returned and len(out) == len(S) and forall_range(0, len(S), lambda j: out[j] == S[j])"),
+            ('focus_restored_on_exhaustion',
+             "returned and ctx.item == item0 and ctx.size == size0 and ctx.position == pos0 and ctx.axis == 'entry-axis'"),
+        ],
+        loops={loop: LoopSpec([f"_i{loop} <= len(S)", f"len(out) == _i{loop}",
+                               f"forall_range(0, _i{loop}, lambda j: out[j] == S[j])", "ctx.size == len(S)", "ctx.axis is None"] +
+                              ([f"ctx.position == len(S) - _i{loop}"] if rev else []))},
+        generator=K_ITEM, expect_min_obligations=3,
+        notes=['A-FOCUS: the consumer of the generator does not write context.position/size between two yields',
+               'abandoning the generator before exhaustion skips the restore code (stated gap)']))
